@@ -47,6 +47,7 @@ type traceEv struct {
 	sync          bool
 	spawn         []spawnTake
 	blocked       *Term
+	nondet        *Term
 	pg, done      *Term
 }
 
@@ -116,6 +117,7 @@ type W struct {
 	recoverFns map[*ssa.Function]bool
 	orderFirst []string
 	prologue bool
+	curThread *Thread
 	curLabel string
 	hasPrologue bool
 }
@@ -142,6 +144,18 @@ func (c *cellAccess) conflicting() bool {
 	for _, m := range c.syncThr {
 		if m == 'w' {
 			return true
+		}
+	}
+	return false
+}
+
+// shared: touched by two goroutines, at least once written (locks ignored): the candidates of the race query
+func (c *cellAccess) shared() bool {
+	for i, a := range c.recs {
+		for _, b := range c.recs[i+1:] {
+			if a.thread != b.thread && (a.write || b.write) {
+				return true
+			}
 		}
 	}
 	return false
@@ -212,6 +226,7 @@ type opSpec struct {
 	syncCell  bool
 	traced    bool
 	label     string
+	nondet    *Term
 	spawn     *[]spawnTake
 	accCells  []string
 	accNames  []string
@@ -250,7 +265,7 @@ func (w *W) op(t *Thread, key int, pg *Term, o opSpec) (Value, *Term) {
 			st.res = merge(exec, nv, st.res)
 		}
 		if (o.traced || debugYields) && !exec.IsFalse() && !t.alone {
-			w.trace = append(w.trace, traceEv{thread: t.id, round: t.round, exec: exec, pos: w.pos(o.pos), kind: o.kind, key: key, sync: true, fn: w.curFnName()})
+			w.trace = append(w.trace, traceEv{thread: t.id, round: t.round, exec: exec, pos: w.pos(o.pos), kind: o.kind, key: key, sync: true, fn: w.curFnName(), nondet: o.nondet})
 		}
 		st.done = pg
 		if t.cutAfterOp {
@@ -467,6 +482,7 @@ func (w *W) run(root *ssa.Function) {
 }
 
 func (w *W) walkThread(t *Thread) {
+	w.curThread = t
 	t.truncated = False
 	if t.id == 0 {
 		w.prologue = w.hasPrologue
@@ -588,7 +604,9 @@ func (w *W) recordAccess(t *Thread, o opSpec) {
 			continue
 		}
 		own := i < len(o.accOwn) && o.accOwn[i]
-		if o.write && !own {
+		if o.write {
+			// any write while other goroutines exist disqualifies the cell from "frozen" (even a write by the
+			// allocating goroutine before publication: the same goroutine may have read the cell earlier)
 			ca.written = true
 		}
 		if own || (i < len(o.accNoRace) && o.accNoRace[i]) {
